@@ -71,7 +71,7 @@ def programs(tier):
         P.append((f"str_join!(const SEP, {arr})", ["const SEP: &str = \"ñ€\";", "const SEPC: char = '€';", f"const K: &str = konst::string::str_join!(SEP, &{arr});", f"const KC: &str = konst::string::str_join!(SEPC, &{arr});", f"let e: [&str; {len(lst)}] = {arr};",
                   f"out.push((\"str_join!(const &str sep) {arr.replace(chr(34), chr(39))}\".to_string(), K.to_string(), e.join(SEP)));",
                   f"out.push((\"str_join!(const char sep) {arr.replace(chr(34), chr(39))}\".to_string(), KC.to_string(), e.join(\"€\")));"]))
-    # string::from_iter! with 0..1 adapter
+    # string::a piece / separator of every byte length 0..={dict(quick=40, thorough=130)[tier]} in str_concat!/str_join!/from_iter!; from_iter! with 0..1 adapter
     adapters = [("", "{it}.map(|s| s.to_string()).collect::<String>()"),
                 ("rev()", "{it}.rev().map(|s| s.to_string()).collect::<String>()"),
                 ("filter(|s| !s.is_empty())", "{it}.filter(|s| !s.is_empty()).map(|s| s.to_string()).collect::<String>()"),
@@ -115,6 +115,25 @@ def programs(tier):
                       f"out.push(({e3js('str_join!(' + sep + ', long pieces) ' + arr)}.to_string(), K.to_string(), e.join({sep_std})));"]))
         P.append((f"string::from_iter!(long pieces {len(lst)})", [f"const A: [&str; {len(lst)}] = {arr};", "const K: &str = konst::string::from_iter!(&A, rev());",
                   f"out.push(({e3js('from_iter!(long pieces, rev()) ' + arr)}.to_string(), K.to_string(), A.iter().rev().copied().collect::<String>()));"]))
+    # ---- every piece length (round 15: a block-wise copy that dropped pieces whose byte length is a non-zero multiple of 8):
+    # one piece of exactly n bytes for every n up to the bound, between two short pieces, as piece and as separator
+    def piece(n):
+        asc = "abcdefghijklmnopqrstuvwxyz0123456789"
+        fill = lambda k: (asc * (k // len(asc) + 1))[:k]
+        if n >= 3 and n % 2 == 1:
+            return '"€' + fill(n - 3) + '"'
+        if n >= 2:
+            return '"ñ' + fill(n - 2) + '"'
+        return '"' + fill(n) + '"'
+    for n in range(0, {"quick": 41, "thorough": 131}[tier]):
+        pn = piece(n)
+        arr = f'["x", {pn}, "yz", {pn}]'
+        P.append((f"str_concat!(piece of {n} bytes)", [f"const K: &str = konst::string::str_concat!(&{arr});", f"let e: [&str; 4] = {arr};",
+                  f"out.push(({e3js('str_concat!(piece of ' + str(n) + ' bytes) ' + arr)}.to_string(), K.to_string(), e.concat()));"]))
+        P.append((f"str_join!(piece and separator of {n} bytes)", [f"const K: &str = konst::string::str_join!({pn}, &{arr});", f"let e: [&str; 4] = {arr};",
+                  f"out.push(({e3js('str_join!(sep of ' + str(n) + ' bytes) ' + arr)}.to_string(), K.to_string(), e.join({pn})));"]))
+        P.append((f"string::from_iter!(piece of {n} bytes)", [f"const A: [&str; 4] = {arr};", "const K: &str = konst::string::from_iter!(&A);",
+                  f"out.push(({e3js('from_iter!(piece of ' + str(n) + ' bytes) ' + arr)}.to_string(), K.to_string(), A.iter().copied().collect::<String>()));"]))
     for n1, n2 in [(17, 0), (33, 1), (8, 9), (16, 17), (64, 3)]:
         a1 = "[" + ", ".join(str((i * 7 + 1) % 251) for i in range(n1)) + "]"
         a2 = "[" + ", ".join(str((i * 5 + 2) % 241) for i in range(n2)) + "]"
@@ -194,7 +213,7 @@ def run(tier, seed, drv):
     rep["evaluations"] = evals
     rep["distinct_nontrivial"] = sum(1 for n in names.values() if "ñ" in n or "€" in n or "😀" in n)
     rep["rule"] = "program = one macro invocation with constant arguments, evaluated at compile time in its own const; compared at run time with <[&str]>::concat / join / String::from_iter / <[&[T]]>::concat on the same data; a program rustc rejects (incl. a const-evaluation panic) is a violation; non-trivial = invocations involving multi-byte pieces or separators"
-    rep["bounds"] = f"{len(allp)} invocations: lists of 0..={dict(quick=3, thorough=4)[tier]} pieces over {PIECES} / chars {CHARS}; separators {SEPS_S + SEPS_C} and const separators; three argument forms (literal array, const slice, &CONST array); from_iter! with 0..1 adapter (rev, filter, map, flat_map, skip, take, copied) and char ranges incl. the surrogate gap; slice_concat! over u8/u16 lists of lists"
+    rep["bounds"] = f"{len(allp)} invocations: lists of 0..={dict(quick=3, thorough=4)[tier]} pieces over {PIECES} / chars {CHARS}; separators {SEPS_S + SEPS_C} and const separators; three argument forms (literal array, const slice, &CONST array); a piece / separator of every byte length 0..={dict(quick=40, thorough=130)[tier]} in str_concat!/str_join!/from_iter!; from_iter! with 0..1 adapter (rev, filter, map, flat_map, skip, take, copied) and char ranges incl. the surrogate gap; slice_concat! over u8/u16 lists of lists"
     rep["samples"] = [names[0], names[len(names) // 3], names[len(names) // 2], names[len(names) - 1]]
     rep["extra"] = {"programs": len(allp), "rejected_by_rustc": len(rejected), "disagreements_checked": len(viol)}
     return rep
